@@ -24,13 +24,13 @@ theorem headOk_ws (ps : List Piece) (h : ∀ line, ∃ t, (mkToks line ps).head?
   have : nextRune ((Piece.ws [a1 32] :: ps) ++ X) nx = some 32 := by simp [nextRune, render, Piece.rbs, a1]
   rw [this]; exact safe_space
 
-theorem chainSub_head (f : Font) (hf : FontOk f) (hk : NoKwNames f) (st : Subtable) (h : ChainSub f st)
+theorem chainSub_head (f : Font) (hf : FontOk f) (st : Subtable) (h : ChainSub f st)
     (fuel : Nat) (hfu : tokCount (subP f st) + 2 < fuel) : HeadOk (subP f st) := by
   rcases h with ⟨rules, rfl, hok⟩ | ⟨cov, b, i, l, rules, rfl, hok⟩ | ⟨back, input, look, acts, rfl, hok⟩
-  · obtain ⟨hhead, _, ⟨ps, hps⟩⟩ := chain1_branch f hf hk fuel ChSt.empty rules hok hfu
+  · obtain ⟨hhead, _, ⟨ps, hps⟩⟩ := chain1_branch f hf fuel ChSt.empty rules hok hfu
     rw [hps] at hhead ⊢
     exact headOk_ws ps (fun line => by
-      obtain ⟨t, h1, _, h3, h4⟩ := hhead line
+      obtain ⟨⟨t, h1, h3, h4⟩, _⟩ := hhead line
       exact ⟨t, by simpa [mkToks] using h1, h4, h3⟩)
   · rw [chain2_subP]
     apply headOk_ws
@@ -82,9 +82,9 @@ theorem headOk_count (ps : List Piece) (h : HeadOk ps) : 1 ≤ tokCount ps := by
   | nil => rw [hm] at ht; cases ht
   | cons a as => rw [hm] at this; simp at this; omega
 
-theorem chainUnit_le (f : Font) (hf : FontOk f) (hk : NoKwNames f) (st : Subtable) (h : ChainSub f st) :
+theorem chainUnit_le (f : Font) (hf : FontOk f) (st : Subtable) (h : ChainSub f st) :
     chainSize [st] ≤ tokCount (subP f st) := by
-  have h1 := headOk_count _ (chainSub_head f hf hk st h (tokCount (subP f st) + 3) (by omega))
+  have h1 := headOk_count _ (chainSub_head f hf st h (tokCount (subP f st) + 3) (by omega))
   rcases h with ⟨_, rfl, _⟩ | ⟨cov, b, i, l, rules, rfl, hok⟩ | ⟨_, _, _, _, rfl, _⟩
   · simpa [chainSize] using h1
   · rw [chain2_subP]
@@ -95,20 +95,20 @@ theorem chainUnit_le (f : Font) (hf : FontOk f) (hk : NoKwNames f) (st : Subtabl
     omega
   · simpa [chainSize] using h1
 
-theorem chainSize_le (f : Font) (hf : FontOk f) (hk : NoKwNames f) : ∀ (more : List Subtable), (∀ st ∈ more, ChainSub f st) →
+theorem chainSize_le (f : Font) (hf : FontOk f) : ∀ (more : List Subtable), (∀ st ∈ more, ChainSub f st) →
     chainSize more ≤ tokCount (more.flatMap fun st => orSep ++ subP f st) := by
   intro more
   induction more with
   | nil => intro _; simp [chainSize]
   | cons st more ih =>
     intro h
-    have h1 := chainUnit_le f hf hk st (h st (by simp))
+    have h1 := chainUnit_le f hf st (h st (by simp))
     have h2 := ih (fun x hx => h x (by simp [hx]))
     rw [chainSize_cons]
     simp only [List.flatMap_cons, tokCount_append]
     omega
 
-theorem chain_body (f : Font) (hf : FontOk f) (hk : NoKwNames f) (typ : Nat) (l : Lookup) (h : LookupChainOk f typ l)
+theorem chain_body (f : Font) (hf : FontOk f) (typ : Nat) (l : Lookup) (h : LookupChainOk f typ l)
     (F0 : Nat) (hF : tokCount (bodyP f l) + 4 ≤ F0) :
     (∃ ps, bodyP f l = tk tColon [58] :: ps) ∧
       Frag (readChainedSeqCtx f F0 typ) (bodyP f l) (normLookup l) LookStop Safe := by
@@ -147,15 +147,15 @@ theorem chain_body (f : Font) (hf : FontOk f) (hk : NoKwNames f) (typ : Nat) (l 
         omega
     have hsz : chainSize (st0 :: more) ≤ F0 := by
       rw [chainSize_cons]
-      have h1 := chainUnit_le f hf hk st0 (hsub st0 (by simp))
-      have h2 := chainSize_le f hf hk more (fun st hst => hsub st (by simp [hst]))
+      have h1 := chainUnit_le f hf st0 (hsub st0 (by simp))
+      have h2 := chainSize_le f hf more (fun st hst => hsub st (by simp [hst]))
       omega
-    have hloop := frag_chainLoop f hf hk F0 more st0 (F0 - chainSize (st0 :: more)) []
+    have hloop := frag_chainLoop f hf F0 more st0 (F0 - chainSize (st0 :: more)) []
       (fun st hst => ⟨hsub st hst, hcnt st hst⟩)
     have hj : chainSize (st0 :: more) + (F0 - chainSize (st0 :: more)) = F0 := by omega
     rw [hj] at hloop
     have h4 : Gen.dslExplainFlagsC.length = 4 := by decide
-    obtain ⟨hhead, hsafe⟩ := chainSub_head f hf hk st0 (hsub st0 (by simp)) F0 (hcnt st0 (by simp))
+    obtain ⟨hhead, hsafe⟩ := chainSub_head f hf st0 (hsub st0 (by simp)) F0 (hcnt st0 (by simp))
     unfold readChainedSeqCtx
     refine frag_bind (frag_header l.flags h.flags F0 (by omega)) ?_ (fun nx _ => by
         rw [List.append_assoc]; exact hsafe _ nx) (fun line t _ => ?_)
@@ -188,14 +188,14 @@ theorem gpos8_dispatch (f : Font) (fuel : Nat) (t : Tok) (n : Nat) (acc : List L
   rw [bind_run, h]
   simp [ht, isIdent, hb, kwGSUB, kwGPOS, kwPOS, tIdentifier, tEOF, tError, tSemicolon, tEOL]
 
-theorem item_gsub6 (f : Font) (hf : FontOk f) (hk : NoKwNames f) (l : Lookup) (h : LookupChainOk f 6 l) (F0 : Nat)
+theorem item_gsub6 (f : Font) (hf : FontOk f) (l : Lookup) (h : LookupChainOk f 6 l) (F0 : Nat)
     (hF : tokCount (bodyP f l) + 4 ≤ F0) : LookItemOk f F0 l := by
-  obtain ⟨hc, hfr⟩ := chain_body f hf hk 6 l h F0 hF
+  obtain ⟨hc, hfr⟩ := chain_body f hf 6 l h F0 hF
   exact ⟨readChainedSeqCtx f F0 6, by rw [h.typ]; exact gsub_kw_ok 6 (by decide), by rw [h.typ]; exact gsub6_dispatch f _, hc, hfr⟩
 
-theorem item_gpos8 (f : Font) (hf : FontOk f) (hk : NoKwNames f) (l : Lookup) (h : LookupChainOk f 8 l) (F0 : Nat)
+theorem item_gpos8 (f : Font) (hf : FontOk f) (l : Lookup) (h : LookupChainOk f 8 l) (F0 : Nat)
     (hF : tokCount (bodyP f l) + 4 ≤ F0) : PosItem2 f F0 l := by
-  obtain ⟨hc, hfr⟩ := chain_body f hf hk 8 l h F0 hF
+  obtain ⟨hc, hfr⟩ := chain_body f hf 8 l h F0 hF
   exact ⟨readChainedSeqCtx f F0 8, by rw [h.typ]; exact pos_kw_ok 8 (by decide), by rw [h.typ]; exact gpos8_dispatch f _, hc, Or.inl hfr⟩
 
 end SfntV.Dsl
